@@ -11,6 +11,7 @@ import (
 	"fmt"
 	"os"
 	"os/exec"
+	"path/filepath"
 	"strconv"
 	"strings"
 	"sync"
@@ -48,6 +49,15 @@ type workerOut struct {
 }
 
 func main() {
+	if len(os.Args) >= 3 && os.Args[1] == "--conform" {
+		res := conc.Conform(os.Args[2])
+		b, _ := json.Marshal(res)
+		fmt.Println(string(b))
+		if res.Failure != "" {
+			os.Exit(1)
+		}
+		return
+	}
 	if len(os.Args) >= 4 && os.Args[1] == "--seq" {
 		st := lg.SeqPart(nil, rt.Tier(os.Args[3]))
 		b, _ := json.Marshal(seqOut{Stats: st, Violations: st.Violations, Known: st.Known})
@@ -139,6 +149,9 @@ func main() {
 		}
 	}
 	racePass(rep, id, tier)
+	if id == "C08" {
+		modelConformance(rep, tier)
+	}
 	rep.Set("distinct_nontrivial", totalOutcomes)
 	rep.Set("rule", pd.rule+"; 'states' counts complete schedules executed, 'transitions' is an upper estimate schedules x decision points")
 	rep.Assumption("context switches only immediately before lock acquisitions (and Touch points): sufficient when all shared accesses are inside critical sections; unsynchronised memory is left to the separate free-running -race pass (auxiliary)")
@@ -194,6 +207,65 @@ func absorbSeq(rep *rt.Report, st *seq.Stats) {
 	for _, v := range st.Violations {
 		rep.Violate(fmt.Sprintf("[%s] %v => %s", st.Name, v.Hist, v.Msg), map[string]any{"run": st.Name, "history": v.Hist, "ops": v.Raw})
 	}
+}
+
+// modelConformance: TLC checks tla/StateCacheProto.tla (all interleavings, state-deduplicated, the
+// invariants Sound / EntriesRight / OwnWritesStay / NoDeadlock) for a few scenarios; a set of traces
+// covering EVERY transition of each complete state graph is replayed against the real code under the
+// scheduler, comparing the abstract cache state after every step. Agreement binds the model's verdict to
+// the code. Disagreement alone is not a violation (the code may have been restructured): it is
+// reported and the direct exploration above remains the deciding step; a replayed trace in which the
+// real code returns a wrong value IS a violation.
+func modelConformance(rep *rt.Report, tier rt.Tier) {
+	if _, err := exec.LookPath("tlc"); err != nil {
+		rep.Set("model_conformance", "skipped: tlc not on PATH")
+		return
+	}
+	dir := filepath.Join(rt.Root(), ".build", "conform")
+	_ = os.RemoveAll(dir)
+	out, err := exec.Command("python3", filepath.Join(rt.Root(), "tla", "conform.py"), dir, string(tier)).Output()
+	if err != nil {
+		rep.Set("model_conformance", "skipped: trace generation failed: "+err.Error())
+		return
+	}
+	var results []any
+	lost := 0
+	for _, line := range strings.Split(strings.TrimSpace(string(out)), "\n") {
+		var g struct {
+			Scenario string `json:"scenario"`
+			File     string `json:"file"`
+			TLCError string `json:"tlc_error"`
+		}
+		if json.Unmarshal([]byte(line), &g) != nil {
+			continue
+		}
+		if g.TLCError != "" {
+			results = append(results, map[string]any{"scenario": g.Scenario, "tlc": "the MODEL violates an invariant or failed to run (the model is wrong or was edited): " + g.TLCError[len(g.TLCError)-min(400, len(g.TLCError)):]})
+			lost++
+			continue
+		}
+		o, _ := exec.Command(os.Args[0], "--conform", g.File).Output()
+		var r conc.ConfResult
+		if json.Unmarshal(o, &r) != nil {
+			results = append(results, map[string]any{"scenario": g.Scenario, "error": "replay produced no result"})
+			lost++
+			continue
+		}
+		results = append(results, r)
+		rep.Add("model_states", r.ModelStates)
+		rep.Add("model_transitions", r.ModelTransitions)
+		rep.Add("model_traces_replayed_on_implementation", r.Traces)
+		rep.Add("model_steps_compared_with_implementation", r.Steps)
+		if r.Unsound != "" {
+			rep.Violate("[model trace replay "+r.Scenario+"] "+r.Unsound, map[string]any{"scenario": r.Scenario, "trace_file": g.File})
+		}
+		if r.Failure != "" {
+			lost++
+			fmt.Printf("NOTE: model conformance lost for %s: %s (not a verdict: the direct exploration decides)\n", r.Scenario, r.Failure)
+		}
+	}
+	rep.Set("model_conformance", map[string]any{"spec": "tla/StateCacheProto.tla", "invariants": "Sound, EntriesRight, OwnWritesStay, NoDeadlock (checked by TLC over the complete state graph of each scenario)",
+		"scenarios": results, "scenarios_without_conformance": lost})
 }
 
 // racePass runs the auxiliary free-running -race binary (same scenario bodies, real package sync).
